@@ -31,7 +31,7 @@ DIMS = dict(
 	prefix=['AT', 'A', 'ATGAC'],
 	coll=COLLS,
 	container=['array', 'list', 'annotated-array', 'annotated-list', 'list-mixed-element-dtypes'],
-	ids=['default', 'int64', 'ascii', 'unicode', 'bytes', 'uint8', 'object-array', 'numpy-str-array', 'numeric-strings'],
+	ids=['default', 'int64', 'ascii', 'unicode', 'bytes', 'uint8', 'object-array', 'numpy-str-array', 'numeric-strings', 'uint64-top', 'int64-negative', 'int32-ends', 'python-int-list'],
 	meta=['none', 'unicode', 'nested-extra', 'empty-strings', 'mixed-empty', 'id-attr-ncbi_id', 'id-attr-genbank_acc'],
 	comp=['none', 'gzip0', 'gzip9', 'lzf', 'szip', 'gzip-default'],
 )
@@ -81,6 +81,14 @@ def make_ids(kind, n):
 		return np.array([10 ** 12 + 7 * i for i in range(n)], dtype='i8')
 	if kind == 'uint8':
 		return np.array([200 + i for i in range(n)], dtype='u1')
+	if kind == 'uint64-top':          # 64-bit hashes as IDs: values that do not fit a signed 64-bit integer
+		return np.array([2 ** 64 - 1 - i if i % 2 == 0 else 2 ** 63 + i for i in range(n)], dtype='u8')
+	if kind == 'int64-negative':
+		return np.array([-(2 ** 63) + i if i % 2 == 0 else -1 - i for i in range(n)], dtype='i8')
+	if kind == 'int32-ends':
+		return np.array([2 ** 31 - 1 - i if i % 2 == 0 else -(2 ** 31) + i for i in range(n)], dtype='i4')
+	if kind == 'python-int-list':
+		return [3 * i + 1 for i in range(n)]
 	if kind == 'ascii':
 		return [f'GCF_00000{i}.1' for i in range(n)]
 	if kind == 'unicode':
